@@ -2,6 +2,7 @@
 """Writes /verif/MANIFEST.json from the table below (run after adding a check)."""
 import json
 import os
+import re
 
 HERE = os.path.dirname(os.path.dirname(os.path.abspath(__file__)))
 
@@ -9,17 +10,26 @@ TRUST = ("Coq 8.16.1 kernel (coqc, full .vo build, vm_compute; no native_compute
          "property theorem is recorded in the evidence; translators/harnesses/extraction (ExtrOcamlBasic only) and what is modelled "
          "rather than verified are listed in the evidence trusted_base and in DESIGN.md section 3")
 
-CHECKS = {
-    "C14": dict(
-        engine="version",
-        technique="Coq proof over Gallina translated from the C AST (version_is_compatible, ovni_version_check_str) + hand model of version_parse/model_probe tied by differential execution",
-        text=("Theorems for all version triples/strings/require tables: compatibility <-> same major and minor<=, runtime check returns iff "
-              "parsable and compatible, render/parse round trip, malformed classes refused, a model is enabled iff required compatibly or -a, "
-              "errors iff some requirement is unusable, events of disabled models refused. The two comparison functions are regenerated from "
-              "/repo's C on every run; the hand models are run against the compiled C and ovniemu on generated inputs."),
-        design_ref="6.14",
-        note=TRUST + "; POSIX strtok_r/strtol in the C locale; parson not modelled."),
-}
+def load_fragments():
+    """manifest.d/Cnn.json: {engine, technique, text, design_ref, note[, category]} ;
+       manifest.d/engine-<name>.json: {name, path, serves_properties, kind_free_text} ;
+       manifest.d/na-Cnn.json: {reason} ; manifest.d/hooks.json: {source_commits:[...]}"""
+    checks, engines, na, hooks = {}, [], {}, []
+    d = os.path.join(HERE, "manifest.d")
+    for f in sorted(os.listdir(d)):
+        if not f.endswith(".json"):
+            continue
+        j = json.load(open(os.path.join(d, f)))
+        if re.fullmatch(r"C\d+\.json", f):
+            checks[f[:-5]] = j
+        elif f.startswith("engine-"):
+            engines.append(j)
+        elif f.startswith("na-"):
+            na[f[3:-5]] = j["reason"]
+        elif f == "hooks.json":
+            hooks = j["source_commits"]
+    return checks, engines, na, hooks
+
 
 PENDING_REASON = "not claimed yet: the model, theorems and correspondence for this property are still being built (DESIGN.md section 9 order of work); it will be decided by Coq proof like the others"
 
@@ -27,6 +37,7 @@ ALL = ["C%02d" % i for i in range(1, 21)]
 
 
 def main():
+    CHECKS, ENGINES, NA, HOOK_COMMITS = load_fragments()
     checks = []
     for pid in ALL:
         if pid not in CHECKS:
@@ -40,7 +51,7 @@ def main():
             "replay_cmd_template": "./check %s --replay {path}" % pid,
             "engine": c["engine"],
             "level_claimed": {"category": c.get("category", "proof"), "text": c["text"], "design_ref": c["design_ref"]},
-            "level_note": c["note"],
+            "level_note": c["note"].replace("{TRUST}", TRUST),
             "technique": c["technique"],
         })
     man = {
@@ -62,13 +73,6 @@ def main():
         json.dump(man, f, indent=1)
         f.write("\n")
 
-
-HOOK_COMMITS = []
-NA = {}
-ENGINES = [
-    {"name": "version", "path": "coq/Emu/VersionDefs.v coq/Gen/Version_gen.v coq/Proofs/VersionProofs.v harness/version_h.c oracle/version_drv.ml lib/checks/c14.py",
-     "serves_properties": ["C14"], "kind_free_text": "translated comparison functions + hand model of version_parse and model enabling; Coq proofs; extracted oracle vs compiled C and ovniemu"},
-]
 
 if __name__ == "__main__":
     main()
